@@ -126,6 +126,15 @@ def fixed_cases():
     yield _case('a' * 100, 'key', 20)
     yield _case(b'ab cd ' * 30, 'callkw', 30, r=10)
     yield _case('it\'s "quoted" \\ text ' * 8, 'val', 25)
+    # word texts ending in a separator (or not), str and bytes, at every width of a range: some width leaves the last
+    # line exactly full, some leaves one column too few
+    for base in ('aaaa bbbb cccc dddd ', 'aaaa bbbb cccc dddd', 'ab-cd/ef-gh/ij-kl/', 'x ' * 12, 'word\nline two\n', ' lead and trail  '):
+        for s in (base, base.encode()):
+            for w in range(6, 34):
+                yield _case(s, 'top', w)
+                if w % 3 == 0:
+                    yield _case(s, 'sole', w)
+                    yield _case(s, 'val', w)
 
 
 def strategy(tier):
